@@ -106,6 +106,7 @@ package align
 //@   ensures [illegal-query]     (exists k int :: 0 <= k && k < len(qSeq) && lidx(alpha, qSeq[k]) < 0) ==> result1 != nil
 //@   ensures [undersized]        len(a) < alphaLen(alpha) ==> result1 != nil
 //@   ensures [ragged]            (exists k int :: 0 <= k && k < len(a) && len(a[k]) != len(a)) ==> result1 != nil
+//@   ensures [spans] result1 == nil ==> len(result0) > 0 && result0[0].(*featPair).a.start == 0 && result0[0].(*featPair).b.start == 0 && result0[len(result0)-1].(*featPair).a.end == len(rSeq) && result0[len(result0)-1].(*featPair).b.end == len(qSeq)
 //@   loop 1 invariant 0 <= idx && idx <= len(a) && let == len(a) && let >= alphaLen(alpha) && len(la) == idx * let && cap(la) >= let * let && fresh(la) && forall k int :: 0 <= k && k < idx ==> len(a[k]) == let
 //@   loop 2 invariant 0 <= idx && idx <= len(rSeq) && ref(index) == idxRef(alpha) && let == len(a) && let >= alphaLen(alpha) && len(la) == let * let && index != nil && (forall b int :: 0 <= b && b < 256 ==> index[b] == lidx(alpha, b)) && (forall k int :: 0 <= k && k < len(a) ==> len(a[k]) == let) && forall k int :: 0 <= k && k < idx ==> lidx(alpha, rSeq[k]) >= 0
 //@   loop 3 invariant 0 <= idx && idx <= len(qSeq) && ref(index) == idxRef(alpha) && let == len(a) && let >= alphaLen(alpha) && len(la) == let * let && index != nil && (forall b int :: 0 <= b && b < 256 ==> index[b] == lidx(alpha, b)) && (forall k int :: 0 <= k && k < len(a) ==> len(a[k]) == let) && (forall k int :: 0 <= k && k < len(rSeq) ==> lidx(alpha, rSeq[k]) >= 0) && forall k int :: 0 <= k && k < idx ==> lidx(alpha, qSeq[k]) >= 0
@@ -117,10 +118,12 @@ package align
 //@   loop 8 invariant [shape] 0 <= i && 0 <= j && i <= maxI && j <= maxJ && (last == 0 ==> maxI - i == maxJ - j) && (last == 1 ==> maxJ == j) && (last == 2 ==> maxI == i) && 0 <= last && last <= 2 && (i == r - 1 && j == c - 1 ==> maxI == i && maxJ == j) && maxI < r && maxJ < c
 //@   loop 8 invariant [aln] (arr(aln) == 0 && cap(aln) == 0) || (fresh(aln) && allocated(aln))
 //@   loop 8 invariant [pairs] forall k int :: 0 <= k && k < len(aln) ==> wfPair(aln[k], len(rSeq), len(qSeq))
+//@   loop 8 invariant [span] (len(aln) == 0 ==> maxI == r - 1 && maxJ == c - 1) && (len(aln) > 0 ==> aln[0].(*featPair).a.end == r - 1 && aln[0].(*featPair).b.end == c - 1)
 //@   loop 8 writes fresh
 //@   loop 9 invariant 0 <= i && j == len(aln) - 1 - i && ref(index) == idxRef(alpha) && let == len(a) && let >= alphaLen(alpha) && len(la) == let * let && index != nil && (forall b int :: 0 <= b && b < 256 ==> index[b] == lidx(alpha, b)) && (forall k int :: 0 <= k && k < len(a) ==> len(a[k]) == let) && (forall k int :: 0 <= k && k < len(rSeq) ==> lidx(alpha, rSeq[k]) >= 0) && (forall k int :: 0 <= k && k < len(qSeq) ==> lidx(alpha, qSeq[k]) >= 0)
 //@   loop 9 invariant [aln] (arr(aln) == 0 && cap(aln) == 0) || (fresh(aln) && allocated(aln))
 //@   loop 9 invariant [pairs] forall k int :: 0 <= k && k < len(aln) ==> wfPair(aln[k], len(rSeq), len(qSeq))
+//@   loop 9 invariant [span] len(aln) > 0 ==> (i == 0 ==> aln[len(aln)-1].(*featPair).a.start == 0 && aln[len(aln)-1].(*featPair).b.start == 0 && aln[0].(*featPair).a.end == len(rSeq) && aln[0].(*featPair).b.end == len(qSeq)) && (i > 0 ==> aln[0].(*featPair).a.start == 0 && aln[0].(*featPair).b.start == 0 && aln[len(aln)-1].(*featPair).a.end == len(rSeq) && aln[len(aln)-1].(*featPair).b.end == len(qSeq))
 //@   loop 9 writes fresh
 
 //@ func (NW).alignQLetters
@@ -132,6 +135,7 @@ package align
 //@   ensures [illegal-query]     (exists k int :: 0 <= k && k < len(qSeq) && lidx(alpha, qSeq[k].L) < 0) ==> result1 != nil
 //@   ensures [undersized]        len(a) < alphaLen(alpha) ==> result1 != nil
 //@   ensures [ragged]            (exists k int :: 0 <= k && k < len(a) && len(a[k]) != len(a)) ==> result1 != nil
+//@   ensures [spans] result1 == nil ==> len(result0) > 0 && result0[0].(*featPair).a.start == 0 && result0[0].(*featPair).b.start == 0 && result0[len(result0)-1].(*featPair).a.end == len(rSeq) && result0[len(result0)-1].(*featPair).b.end == len(qSeq)
 //@   loop 1 invariant 0 <= idx && idx <= len(a) && let == len(a) && let >= alphaLen(alpha) && len(la) == idx * let && cap(la) >= let * let && fresh(la) && forall k int :: 0 <= k && k < idx ==> len(a[k]) == let
 //@   loop 2 invariant 0 <= idx && idx <= len(rSeq) && ref(index) == idxRef(alpha) && let == len(a) && let >= alphaLen(alpha) && len(la) == let * let && index != nil && (forall b int :: 0 <= b && b < 256 ==> index[b] == lidx(alpha, b)) && (forall k int :: 0 <= k && k < len(a) ==> len(a[k]) == let) && forall k int :: 0 <= k && k < idx ==> lidx(alpha, rSeq[k].L) >= 0
 //@   loop 3 invariant 0 <= idx && idx <= len(qSeq) && ref(index) == idxRef(alpha) && let == len(a) && let >= alphaLen(alpha) && len(la) == let * let && index != nil && (forall b int :: 0 <= b && b < 256 ==> index[b] == lidx(alpha, b)) && (forall k int :: 0 <= k && k < len(a) ==> len(a[k]) == let) && (forall k int :: 0 <= k && k < len(rSeq) ==> lidx(alpha, rSeq[k].L) >= 0) && forall k int :: 0 <= k && k < idx ==> lidx(alpha, qSeq[k].L) >= 0
@@ -143,10 +147,12 @@ package align
 //@   loop 8 invariant [shape] 0 <= i && 0 <= j && i <= maxI && j <= maxJ && (last == 0 ==> maxI - i == maxJ - j) && (last == 1 ==> maxJ == j) && (last == 2 ==> maxI == i) && 0 <= last && last <= 2 && (i == r - 1 && j == c - 1 ==> maxI == i && maxJ == j) && maxI < r && maxJ < c
 //@   loop 8 invariant [aln] (arr(aln) == 0 && cap(aln) == 0) || (fresh(aln) && allocated(aln))
 //@   loop 8 invariant [pairs] forall k int :: 0 <= k && k < len(aln) ==> wfPair(aln[k], len(rSeq), len(qSeq))
+//@   loop 8 invariant [span] (len(aln) == 0 ==> maxI == r - 1 && maxJ == c - 1) && (len(aln) > 0 ==> aln[0].(*featPair).a.end == r - 1 && aln[0].(*featPair).b.end == c - 1)
 //@   loop 8 writes fresh
 //@   loop 9 invariant 0 <= i && j == len(aln) - 1 - i && ref(index) == idxRef(alpha) && let == len(a) && let >= alphaLen(alpha) && len(la) == let * let && index != nil && (forall b int :: 0 <= b && b < 256 ==> index[b] == lidx(alpha, b)) && (forall k int :: 0 <= k && k < len(a) ==> len(a[k]) == let) && (forall k int :: 0 <= k && k < len(rSeq) ==> lidx(alpha, rSeq[k].L) >= 0) && (forall k int :: 0 <= k && k < len(qSeq) ==> lidx(alpha, qSeq[k].L) >= 0)
 //@   loop 9 invariant [aln] (arr(aln) == 0 && cap(aln) == 0) || (fresh(aln) && allocated(aln))
 //@   loop 9 invariant [pairs] forall k int :: 0 <= k && k < len(aln) ==> wfPair(aln[k], len(rSeq), len(qSeq))
+//@   loop 9 invariant [span] len(aln) > 0 ==> (i == 0 ==> aln[len(aln)-1].(*featPair).a.start == 0 && aln[len(aln)-1].(*featPair).b.start == 0 && aln[0].(*featPair).a.end == len(rSeq) && aln[0].(*featPair).b.end == len(qSeq)) && (i > 0 ==> aln[0].(*featPair).a.start == 0 && aln[0].(*featPair).b.start == 0 && aln[len(aln)-1].(*featPair).a.end == len(rSeq) && aln[len(aln)-1].(*featPair).b.end == len(qSeq))
 //@   loop 9 writes fresh
 
 //@ func (SW).alignLetters
@@ -272,6 +278,7 @@ package align
 //@   ensures [illegal-query]     (exists k int :: 0 <= k && k < len(qSeq) && lidx(alpha, qSeq[k]) < 0) ==> result1 != nil
 //@   ensures [undersized]        len(a.Matrix) < alphaLen(alpha) ==> result1 != nil
 //@   ensures [ragged]            (exists k int :: 0 <= k && k < len(a.Matrix) && len(a.Matrix[k]) != len(a.Matrix)) ==> result1 != nil
+//@   ensures [spans] result1 == nil ==> len(result0) > 0 && result0[0].(*featPair).a.start == 0 && result0[0].(*featPair).b.start == 0 && result0[len(result0)-1].(*featPair).a.end == len(rSeq) && result0[len(result0)-1].(*featPair).b.end == len(qSeq)
 //@   loop 1 invariant 0 <= idx && idx <= len(a.Matrix) && let == len(a.Matrix) && let >= alphaLen(alpha) && len(la) == idx * let && cap(la) >= let * let && fresh(la) && forall k int :: 0 <= k && k < idx ==> len(a.Matrix[k]) == let
 //@   loop 2 invariant 0 <= idx && idx <= len(rSeq) && ref(index) == idxRef(alpha) && let == len(a.Matrix) && let >= alphaLen(alpha) && len(la) == let * let && index != nil && (forall b int :: 0 <= b && b < 256 ==> index[b] == lidx(alpha, b)) && (forall k int :: 0 <= k && k < len(a.Matrix) ==> len(a.Matrix[k]) == let) && forall k int :: 0 <= k && k < idx ==> lidx(alpha, rSeq[k]) >= 0
 //@   loop 3 invariant 0 <= idx && idx <= len(qSeq) && ref(index) == idxRef(alpha) && let == len(a.Matrix) && let >= alphaLen(alpha) && len(la) == let * let && index != nil && (forall b int :: 0 <= b && b < 256 ==> index[b] == lidx(alpha, b)) && (forall k int :: 0 <= k && k < len(a.Matrix) ==> len(a.Matrix[k]) == let) && (forall k int :: 0 <= k && k < len(rSeq) ==> lidx(alpha, rSeq[k]) >= 0) && forall k int :: 0 <= k && k < idx ==> lidx(alpha, qSeq[k]) >= 0
@@ -286,10 +293,12 @@ package align
 //@   loop 9 invariant [shape] 0 <= i && 0 <= j && i <= maxI && j <= maxJ && (last == 0 ==> maxI - i == maxJ - j) && (last == 1 ==> maxJ == j) && (last == 2 ==> maxI == i) && 0 <= last && last <= 2 && (i == r - 1 && j == c - 1 ==> maxI == i && maxJ == j) && maxI < r && maxJ < c
 //@   loop 9 invariant [aln] (arr(aln) == 0 && cap(aln) == 0) || (fresh(aln) && allocated(aln))
 //@   loop 9 invariant [pairs] forall k int :: 0 <= k && k < len(aln) ==> wfPair(aln[k], len(rSeq), len(qSeq))
+//@   loop 9 invariant [span] (len(aln) == 0 ==> maxI == r - 1 && maxJ == c - 1) && (len(aln) > 0 ==> aln[0].(*featPair).a.end == r - 1 && aln[0].(*featPair).b.end == c - 1)
 //@   loop 9 writes fresh
 //@   loop 10 invariant 0 <= i && j == len(aln) - 1 - i && ref(index) == idxRef(alpha) && let == len(a.Matrix) && let >= alphaLen(alpha) && len(la) == let * let && index != nil && (forall b int :: 0 <= b && b < 256 ==> index[b] == lidx(alpha, b)) && (forall k int :: 0 <= k && k < len(a.Matrix) ==> len(a.Matrix[k]) == let) && (forall k int :: 0 <= k && k < len(rSeq) ==> lidx(alpha, rSeq[k]) >= 0) && (forall k int :: 0 <= k && k < len(qSeq) ==> lidx(alpha, qSeq[k]) >= 0)
 //@   loop 10 invariant [aln] (arr(aln) == 0 && cap(aln) == 0) || (fresh(aln) && allocated(aln))
 //@   loop 10 invariant [pairs] forall k int :: 0 <= k && k < len(aln) ==> wfPair(aln[k], len(rSeq), len(qSeq))
+//@   loop 10 invariant [span] len(aln) > 0 ==> (i == 0 ==> aln[len(aln)-1].(*featPair).a.start == 0 && aln[len(aln)-1].(*featPair).b.start == 0 && aln[0].(*featPair).a.end == len(rSeq) && aln[0].(*featPair).b.end == len(qSeq)) && (i > 0 ==> aln[0].(*featPair).a.start == 0 && aln[0].(*featPair).b.start == 0 && aln[len(aln)-1].(*featPair).a.end == len(rSeq) && aln[len(aln)-1].(*featPair).b.end == len(qSeq))
 //@   loop 10 writes fresh
 
 //@ func (NWAffine).alignQLetters
@@ -301,6 +310,7 @@ package align
 //@   ensures [illegal-query]     (exists k int :: 0 <= k && k < len(qSeq) && lidx(alpha, qSeq[k].L) < 0) ==> result1 != nil
 //@   ensures [undersized]        len(a.Matrix) < alphaLen(alpha) ==> result1 != nil
 //@   ensures [ragged]            (exists k int :: 0 <= k && k < len(a.Matrix) && len(a.Matrix[k]) != len(a.Matrix)) ==> result1 != nil
+//@   ensures [spans] result1 == nil ==> len(result0) > 0 && result0[0].(*featPair).a.start == 0 && result0[0].(*featPair).b.start == 0 && result0[len(result0)-1].(*featPair).a.end == len(rSeq) && result0[len(result0)-1].(*featPair).b.end == len(qSeq)
 //@   loop 1 invariant 0 <= idx && idx <= len(a.Matrix) && let == len(a.Matrix) && let >= alphaLen(alpha) && len(la) == idx * let && cap(la) >= let * let && fresh(la) && forall k int :: 0 <= k && k < idx ==> len(a.Matrix[k]) == let
 //@   loop 2 invariant 0 <= idx && idx <= len(rSeq) && ref(index) == idxRef(alpha) && let == len(a.Matrix) && let >= alphaLen(alpha) && len(la) == let * let && index != nil && (forall b int :: 0 <= b && b < 256 ==> index[b] == lidx(alpha, b)) && (forall k int :: 0 <= k && k < len(a.Matrix) ==> len(a.Matrix[k]) == let) && forall k int :: 0 <= k && k < idx ==> lidx(alpha, rSeq[k].L) >= 0
 //@   loop 3 invariant 0 <= idx && idx <= len(qSeq) && ref(index) == idxRef(alpha) && let == len(a.Matrix) && let >= alphaLen(alpha) && len(la) == let * let && index != nil && (forall b int :: 0 <= b && b < 256 ==> index[b] == lidx(alpha, b)) && (forall k int :: 0 <= k && k < len(a.Matrix) ==> len(a.Matrix[k]) == let) && (forall k int :: 0 <= k && k < len(rSeq) ==> lidx(alpha, rSeq[k].L) >= 0) && forall k int :: 0 <= k && k < idx ==> lidx(alpha, qSeq[k].L) >= 0
@@ -315,10 +325,12 @@ package align
 //@   loop 9 invariant [shape] 0 <= i && 0 <= j && i <= maxI && j <= maxJ && (last == 0 ==> maxI - i == maxJ - j) && (last == 1 ==> maxJ == j) && (last == 2 ==> maxI == i) && 0 <= last && last <= 2 && (i == r - 1 && j == c - 1 ==> maxI == i && maxJ == j) && maxI < r && maxJ < c
 //@   loop 9 invariant [aln] (arr(aln) == 0 && cap(aln) == 0) || (fresh(aln) && allocated(aln))
 //@   loop 9 invariant [pairs] forall k int :: 0 <= k && k < len(aln) ==> wfPair(aln[k], len(rSeq), len(qSeq))
+//@   loop 9 invariant [span] (len(aln) == 0 ==> maxI == r - 1 && maxJ == c - 1) && (len(aln) > 0 ==> aln[0].(*featPair).a.end == r - 1 && aln[0].(*featPair).b.end == c - 1)
 //@   loop 9 writes fresh
 //@   loop 10 invariant 0 <= i && j == len(aln) - 1 - i && ref(index) == idxRef(alpha) && let == len(a.Matrix) && let >= alphaLen(alpha) && len(la) == let * let && index != nil && (forall b int :: 0 <= b && b < 256 ==> index[b] == lidx(alpha, b)) && (forall k int :: 0 <= k && k < len(a.Matrix) ==> len(a.Matrix[k]) == let) && (forall k int :: 0 <= k && k < len(rSeq) ==> lidx(alpha, rSeq[k].L) >= 0) && (forall k int :: 0 <= k && k < len(qSeq) ==> lidx(alpha, qSeq[k].L) >= 0)
 //@   loop 10 invariant [aln] (arr(aln) == 0 && cap(aln) == 0) || (fresh(aln) && allocated(aln))
 //@   loop 10 invariant [pairs] forall k int :: 0 <= k && k < len(aln) ==> wfPair(aln[k], len(rSeq), len(qSeq))
+//@   loop 10 invariant [span] len(aln) > 0 ==> (i == 0 ==> aln[len(aln)-1].(*featPair).a.start == 0 && aln[len(aln)-1].(*featPair).b.start == 0 && aln[0].(*featPair).a.end == len(rSeq) && aln[0].(*featPair).b.end == len(qSeq)) && (i > 0 ==> aln[0].(*featPair).a.start == 0 && aln[0].(*featPair).b.start == 0 && aln[len(aln)-1].(*featPair).a.end == len(rSeq) && aln[len(aln)-1].(*featPair).b.end == len(qSeq))
 //@   loop 10 writes fresh
 
 //@ func (SWAffine).alignLetters
